@@ -1129,12 +1129,15 @@ class C05(Prop):
           '`n_:` keys of all spellings int() accepts or rejects; store: histories of save/load/append/'
           'read/exists/listdir/mkdirs over 1-6 prefix-free /mem paths drawn from names over {m,e,a,x,…} '
           '(replayed on a temp dir of the OS file system too) plus a messy stream (paths inside files, '
-          'double slashes); spec: value specs / schemas / geno specs / DNA / functions. Non-trivial: a '
+          'double slashes); hstore: histories over 1-3 paths with OPEN HANDLES as state (open r/w/a, partial '
+          'read / readline / write through the handle, handles left open across later save / overwrite / '
+          'append / load of the same path, closed later or never; own-position abstract store as spec); spec: value specs / schemas / geno specs / DNA / functions. Non-trivial: a '
           'container or object value, a history with a write and a later read, a composite spec.')
   trusted_base = [
       "Python's json.dumps / json.loads (the text layer is an abstract bijection in the string-form theorem)",
       'pickle, copy.deepcopy, the OS file system (implementation-side oracle only)',
-      'io.StringIO (a memory file is modelled as its content; files are closed between API calls)',
+      'io.StringIO (code-point read / readline / write with NUL padding are modelled in C05Handles; the '
+      'closed-handle theorems treat a file as its content)',
       'modelled, not verified: to_json / from_json / Object.__init__ binding for field kinds '
       'Any Bool Int Str List Dict Object, `n_:` key coding incl. int() on ASCII, MemoryFileSystem '
       '(_internal_path, _locate, mkdirs, open w/a, read), LineSequence; tied by correspondence',
